@@ -42,6 +42,7 @@ type c09Result struct {
 	alloc     uint64
 	calls     int
 	errSeen   error
+	getErrs   []error // per probe key: the error of the buffering lookup (Get), stores only
 	truncHuge bool
 }
 
@@ -175,7 +176,8 @@ func runEntry(entry string, data []byte, profile string, del sim.Delivery, opts 
 			}
 			for _, k := range probeKeys {
 				ro.Has(bg, k)
-				ro.Get(bg, k)
+				_, gerr := ro.Get(bg, k)
+				res.getErrs = append(res.getErrs, gerr)
 				ro.GetSize(bg, k)
 			}
 			useIndex(ro.Index(), nil)
@@ -205,7 +207,8 @@ func runEntry(entry string, data []byte, profile string, del sim.Delivery, opts 
 			}
 			for _, k := range probeKeys {
 				rc.Has(bg, k.KeyString())
-				rc.Get(bg, k.KeyString())
+				_, gerr := rc.Get(bg, k.KeyString())
+				res.getErrs = append(res.getErrs, gerr)
 				if s, err := rc.GetStream(bg, k.KeyString()); err == nil {
 					io.Copy(io.Discard, s)
 					s.Close()
@@ -410,44 +413,15 @@ func c09Limits(t *Trace, l *Layout, st *Stats) *Violation {
 			if entry == "v1" && (l.Spec.V2 || len(l.Roots) == 0) {
 				continue
 			}
-			sectionCase := lm.opts.MaxSection > 0
-			if sectionCase && (entry == "loadindex:sorted") {
+			if lm.opts.MaxSection > 0 && (entry == "loadindex:sorted") {
 				continue // index generation skips over section bodies, it does not buffer them
 			}
-			st.Evals++
-			prof := sim.ProfRSAB
 			pt := t.Clone()
 			pt.Medium.All = false
-			pt.Medium.Entry, pt.Medium.Profile, pt.Medium.Opts, pt.Medium.Muts = entry, prof, lm.opts, nil
+			pt.Medium.Entry, pt.Medium.Profile, pt.Medium.Opts, pt.Medium.Muts = entry, sim.ProfRSAB, lm.opts, nil
 			pt.Medium.Choices = ""
-			announce(pt)
-			var probes []cid.Cid
-			for _, s := range l.Payload.Sections {
-				probes = append(probes, s.Cid)
-			}
-			res := runEntry(entry, l.Image, prof, sim.Delivery{ErrAt: -1}, lm.opts, "", probes, filepath.Join(scratchDir(), "tmp"))
-			if res.panicV != nil {
-				v := viol("medium/panic/"+entry+"@limit:"+lm.what, "%s panicked on a valid archive with %s: %v", entry, lm.what, res.panicV)
-				if st.Report == nil || st.Report(pt, v) {
-					return v
-				}
-				continue
-			}
-			var v *Violation
-			if lm.accept {
-				if res.errSeen != nil && (errors.Is(res.errSeen, verifbridge.ErrHeaderTooLarge) || errors.Is(res.errSeen, verifbridge.ErrSectionTooLarge)) {
-					v = viol("medium/limit-rejects-at-max/"+entry+"@"+lm.what, "%s rejected a valid archive whose largest %s: %v", entry, lm.what, res.errSeen)
-				}
-			} else if entry == "readonly" || entry == "openreadable" {
-				// lookups swallow per-key errors in this driver; only the constructors' header check is visible
-				if !sectionCase && (res.errSeen == nil || !errors.Is(res.errSeen, lm.want)) {
-					v = viol("medium/limit-not-enforced/"+entry+"@"+lm.what, "%s did not reject with the too-large error (%v) a valid archive with %s", entry, res.errSeen, lm.what)
-				}
-			} else if res.errSeen == nil || !errors.Is(res.errSeen, lm.want) {
-				v = viol("medium/limit-not-enforced/"+entry+"@"+lm.what, "%s did not reject with the too-large error (got %v) a valid archive with %s", entry, res.errSeen, lm.what)
-			}
-			st.Probe("c09:limit-case")
-			if v != nil {
+			pt.Extra = map[string]any{"limit": lm.what}
+			if v := c09LimitCase(pt, l, st); v != nil {
 				if st.Report == nil || st.Report(pt, v) {
 					return v
 				}
@@ -455,6 +429,67 @@ func c09Limits(t *Trace, l *Layout, st *Stats) *Violation {
 		}
 	}
 	return nil
+}
+
+// c09LimitCase runs one boundary case; t.Extra["limit"] names it ("header=max", "section=max+1", ...).
+func c09LimitCase(pt *Trace, l *Layout, st *Stats) *Violation {
+	entry, what, opts := pt.Medium.Entry, fmt.Sprint(pt.Extra["limit"]), pt.Medium.Opts
+	lm := struct {
+		what   string
+		opts   ReadOpts
+		accept bool
+		want   error
+	}{what, opts, !strings.HasSuffix(what, "+1"), verifbridge.ErrSectionTooLarge}
+	if strings.HasPrefix(what, "header") {
+		lm.want = verifbridge.ErrHeaderTooLarge
+	}
+	sectionCase := lm.opts.MaxSection > 0
+	prof := pt.Medium.Profile
+	st.Evals++
+	announce(pt)
+	var probes []cid.Cid
+	for _, s := range l.Payload.Sections {
+		probes = append(probes, s.Cid)
+	}
+	res := runEntry(entry, l.Image, prof, sim.Delivery{ErrAt: -1}, lm.opts, "", probes, filepath.Join(scratchDir(), "tmp"))
+	if res.panicV != nil {
+		v := viol("medium/panic/"+entry+"@limit:"+lm.what, "%s panicked on a valid archive with %s: %v", entry, lm.what, res.panicV)
+		return v
+	}
+	var v *Violation
+	if lm.accept {
+		if res.errSeen != nil && (errors.Is(res.errSeen, verifbridge.ErrHeaderTooLarge) || errors.Is(res.errSeen, verifbridge.ErrSectionTooLarge)) {
+			v = viol("medium/limit-rejects-at-max/"+entry+"@"+lm.what, "%s rejected a valid archive whose largest %s: %v", entry, lm.what, res.errSeen)
+		}
+		for _, gerr := range res.getErrs {
+			if v == nil && gerr != nil && errors.Is(gerr, verifbridge.ErrSectionTooLarge) {
+				v = viol("medium/limit-rejects-at-max/"+entry+".get@"+lm.what, "%s: Get rejected a section of a valid archive whose largest %s: %v", entry, lm.what, gerr)
+			}
+		}
+	} else if entry == "readonly" || entry == "openreadable" {
+		if !sectionCase {
+			if res.errSeen == nil || !errors.Is(res.errSeen, lm.want) {
+				v = viol("medium/limit-not-enforced/"+entry+"@"+lm.what, "%s did not reject with the too-large error (%v) a valid archive with %s", entry, res.errSeen, lm.what)
+			}
+		} else if res.errSeen == nil && len(res.getErrs) == len(l.Payload.Sections) {
+			// Get buffers the section: the lookup of a section over the maximum is refused
+			mhCount := map[string]int{}
+			for _, s := range l.Payload.Sections {
+				mhCount[string(s.Cid.Hash())]++
+			}
+			for i, s := range l.Payload.Sections {
+				// (a digest stored twice may be served from the other, smaller section)
+				if uint64(s.CidLen+s.DataLen) > lm.opts.MaxSection && !IsIdentity(s.Cid) && mhCount[string(s.Cid.Hash())] == 1 && !errors.Is(res.getErrs[i], lm.want) {
+					v = viol("medium/limit-not-enforced/"+entry+".get@"+lm.what, "%s: Get of a %d-byte section under a %d-byte maximum did not fail with the too-large error (got %v)", entry, s.CidLen+s.DataLen, lm.opts.MaxSection, res.getErrs[i])
+					break
+				}
+			}
+		}
+	} else if res.errSeen == nil || !errors.Is(res.errSeen, lm.want) {
+		v = viol("medium/limit-not-enforced/"+entry+"@"+lm.what, "%s did not reject with the too-large error (got %v) a valid archive with %s", entry, res.errSeen, lm.what)
+	}
+	st.Probe("c09:limit-case")
+	return v
 }
 
 func c09Mutations(l *Layout, r *Rng, n int) [][]Mut {
@@ -507,6 +542,9 @@ func RunC09(t *Trace, st *Stats) *Violation {
 		if ms.Entry == "indexreadfrom" && l.IndexOffset != 0 && t.Extra != nil && t.Extra["index_only"] == true {
 			ix := &Layout{Spec: l.Spec, Image: l.Image[l.IndexOffset:], Payload: &RefPayload{}}
 			_ = ix
+		}
+		if t.Extra != nil && t.Extra["limit"] != nil {
+			return c09LimitCase(t, l, st)
 		}
 		return runC09Case(t, l, c09Data(t, l), st)
 	}
@@ -608,7 +646,6 @@ func C09ChildInit(announcePath string) {
 		}
 	}
 }
-
 
 // allocSite re-runs f with every allocation sampled and returns the innermost
 // go-car / go-cid function of the stack that allocated the most bytes.
